@@ -125,7 +125,7 @@ type program struct {
 }
 
 var ops = []string{"xmss.Verify", "xmss.Verify.bad", "xmss.Address", "xmss.IsValidAddress", "xmss.LegacyAddress", "xmss.IsValidLegacy", "descriptor", "mnemonic.enc48", "mnemonic.dec48", "mnemonic.enc51", "mnemonic.dec51", "mnemonic.bad",
-	"dil.Verify", "dil.Verify.bad", "dil.Open", "dil.Address", "dil.IsValidAddress", "dil.Sign.shared", "dil.Seal.shared", "dil.getters.shared", "xmss.private.Sign", "xmss.private.SetIndex", "xmss.private.getters", "xmss.VerifyW", "xmss.VerifyW", "xmss.helpers"}
+	"dil.Verify", "dil.Verify.bad", "dil.Verify.malformed", "dil.Open", "dil.Address", "dil.IsValidAddress", "dil.Sign.shared", "dil.Seal.shared", "dil.getters.shared", "xmss.private.Sign", "xmss.private.SetIndex", "xmss.private.getters", "xmss.VerifyW", "xmss.VerifyW", "xmss.helpers"}
 
 // Winternitz parameters presented to VerifyWithCustomWOTSParamW: the three supported ones and, per size class,
 // one value that the parameter validation also lets through (truncated log2): 17 ~ 16, 5 ~ 4, 300 ~ 256.
@@ -186,7 +186,7 @@ func expected(p *pools, c callSpec) string {
 		return "refused"
 	case "dil.Verify":
 		return "true"
-	case "dil.Verify.bad":
+	case "dil.Verify.bad", "dil.Verify.malformed":
 		return "false"
 	case "dil.Open":
 		return hex.EncodeToString(p.dmsgs[c.B%3])
@@ -322,6 +322,24 @@ func execCall(p *pools, c callSpec, priv *privKey) (res string) {
 		s, _ := codecref.Encode(p.seeds[a], p.words)
 		x := misc.MnemonicToSeedBin("Q" + s)
 		return hex.EncodeToString(x[:])
+	case "dil.Verify.malformed":
+		// a signature whose hint section is not a canonical encoding (rejected by the decoder, before any arithmetic)
+		var s [dilithium.CryptoBytes]byte
+		copy(s[:], p.dsigs[[2]int{a, c.B % 3}])
+		switch c.B % 4 {
+		case 0:
+			s[dilithium.CryptoBytes-1] = 200 // count > omega
+		case 1:
+			s[dilithium.CryptoBytes-8] = 80
+		case 2:
+			for i := range s {
+				s[i] = 0xff
+			}
+		default:
+			copy(s[:], pu.HintChain(s[:], c.B%8, 90, uint64(c.B)))
+		}
+		pk := p.dpk[a]
+		return fmt.Sprint(dilithium.Verify(p.dmsgs[c.B%3], s, &pk))
 	case "dil.Verify", "dil.Verify.bad":
 		var s [dilithium.CryptoBytes]byte
 		copy(s[:], p.dsigs[[2]int{a, c.B % 3}])
@@ -528,7 +546,7 @@ func TestPrograms(t *testing.T) {
 	// alternation storms: 8 goroutines hammer ONE operation family, every goroutine switching to another pool
 	// entry (key / public key / seed) on every round - the access pattern that defeats a cache keyed on "the
 	// last key used" (sequentially detectable too) or published in two steps (only concurrently)
-	for _, op := range []string{"dil.Verify", "dil.Open", "dil.Sign.shared", "dil.Address", "xmss.Verify", "xmss.Address", "mnemonic.dec48", "xmss.VerifyW"} {
+	for _, op := range []string{"dil.Verify.malformed", "dil.Verify", "dil.Open", "dil.Sign.shared", "dil.Address", "xmss.Verify", "xmss.Address", "mnemonic.dec48", "xmss.VerifyW"} {
 		const G, R = 8, 24
 		var wg sync.WaitGroup
 		start := make(chan struct{})
